@@ -29,7 +29,14 @@ type c06Case struct {
 // refKeysOfPair derives the record keys of a completed conversation from the tapped hellos and
 // the master secret stored in a harness-supplied session cache (taken as given here; C04 checks it).
 func refKeysOfPair(r *vfPair, cache *vfCapCache) (refKeys, error) {
-	cm, sm := vfPlainHandshake(vfRecordsOf(r, 0)), vfPlainHandshake(vfRecordsOf(r, 1))
+	a, _ := r.Sim.snapshot(0)
+	b, _ := r.Sim.snapshot(1)
+	return refKeysOfTaps(a, b, cache)
+}
+
+// refKeysOfTaps is refKeysOfPair on raw captured byte streams (usable while the conversation runs).
+func refKeysOfTaps(c2s, s2c []byte, cache *vfCapCache) (refKeys, error) {
+	cm, sm := vfPlainHandshake(vfFrameStream(c2s)), vfPlainHandshake(vfFrameStream(s2c))
 	var ch, sh *vfHSMsg
 	for i := range cm {
 		if cm[i].Typ == hsClientHello {
@@ -205,6 +212,20 @@ func TestVF_C06(t *testing.T) {
 			Bufs: rapid.SliceOfN(rapid.SampledFrom([]int{1, 7, 100, 4096, 20000}), 1, 3).Draw(t, "bufs"), Close: rapid.IntRange(0, 2).Draw(t, "close")}
 		if c.Seg == 2 {
 			c.SegCycle = rapid.SliceOfN(rapid.IntRange(1, 50), 1, 5).Draw(t, "segc")
+		}
+		// the dynamic-sizing ramp: many records while fewer than 128 KiB were sent, then a long write
+		switch rapid.IntRange(0, 9).Draw(t, "ramp") {
+		case 0:
+			k := rapid.IntRange(10, 20).Draw(t, "nsmall")
+			c.Writes = nil
+			for i := 0; i < k; i++ {
+				c.Writes = append(c.Writes, rapid.IntRange(1, 600).Draw(t, "small"))
+			}
+			c.Writes = append(c.Writes, rapid.SampledFrom([]int{16384, 16385, 20000, 40000}).Draw(t, "big"))
+			c.Seg, c.Bufs = 0, []int{20000}
+		case 1:
+			c.Writes = []int{rapid.SampledFrom([]int{120000, 137000, 140000, 200000}).Draw(t, "huge")}
+			c.Seg, c.Bufs = 0, []int{20000}
 		}
 		total := 0
 		for _, n := range c.Writes {
